@@ -2,9 +2,12 @@
 from common import *
 from syn_gen import *
 from gen import Gen
-import l1, c13
+import l1, c13, corpus
 
 NEEDS = ("runner", "cli")
+TRUSTED = ["the source -> abstract-AST translator harness/runner/src/ast.rs (runner op `ast`) that feeds the model in the corpus "
+           "part; validated against the generator's own s-expressions by tools/asttest.py (textual equality on thousands of "
+           "random files)"]
 
 
 def is_annotated(attrs):
@@ -137,6 +140,15 @@ def run(check):
     cli_part(check, cases)
     if not check.violations:
         merged_part(check, cases)
+    if not check.violations:
+        same_ident_part(check)
+    # the human-written corpus (core/data/tests/*/input.rs, corpus/handwritten/*.rs) and token-level mutants of it: the
+    # whole pipeline of the real code against the model fed by the translator, all six languages
+    check.rule += ("; corpus part: every snapshot-test input of the repository and every hand-written input (whole and item by "
+                   "item), under two configurations per language, plus token-level mutants (type swaps / wraps, added serde and "
+                   "typeshare attributes, renames, duplicated fields, reordered / nested items), single-file generation byte "
+                   "for byte, and multi-file parse level (imports)")
+    corpus.corpus_part(check)
     check.assumptions += ["the emission clause (each back end prints every parsed item and member once) rests on the byte-exact back-end correspondence of C01/C02/C09 and the model's structure (a map over the parsed lists)"]
 
 
@@ -201,6 +213,74 @@ def merged_part(check, cases):
                                 case={"files": {"f%d.rs" % k: c["text"] for k, c in enumerate(picks)} | {"bad.rs": BAD}, "lang": lang, "order": order},
                                 impl={"rc": r["rc"], "stderr": r["err"][-1500:], "output": text[-1500:]}, failing_input=True)
                 return
+
+
+def same_ident_part(check):
+    """generation level (parse -> merge -> reconcile -> back end, in-process): annotated items that share their Rust identifier
+    (in different modules or files, told apart by serde(rename), or not at all) are all emitted - nothing is merged or dropped
+    on the way to the output"""
+    import l2
+    rng = check.rng
+    ts = [m_path("typeshare")]
+    for idx in range(36 if check.thorough else 12):
+        lang = LANGS[idx % len(LANGS)]
+        kind = rng.choice(["struct", "struct", "enum", "alias"])
+        if lang == "go" and kind == "enum":
+            kind = "struct"             # Go names enums after the Rust identifier (C09's open finding)
+        name = rng.choice(["Config", "Mode", "Item", "payload_t"])
+        k = rng.randint(2, 3)
+        copies, want = [], []
+        for j in range(k):
+            rn = None if (j == 0 and rng.random() < 0.7) else "%sV%d" % (name.title().replace("_", ""), j + 1)
+            attrs = list(ts) + ([m_list("serde", [m_nv("rename", lit_s(rn))])] if rn else [])
+            member = "m%d_%s" % (j, rng.choice(["alpha", "beta", "gamma"]))
+            if kind == "struct":
+                it = {"kind": "struct", "attrs": attrs, "ident": name, "generics": [], "fields": ("named", [field([], member, t_path("u8"))])}
+            elif kind == "enum":
+                member = "V%d%s" % (j, rng.choice(["Fast", "Slow"]))
+                it = {"kind": "enum", "attrs": attrs, "ident": name, "generics": [],
+                      "variants": [{"attrs": [], "ident": member, "fields": ("unit",)}, {"attrs": [], "ident": "Common", "fields": ("unit",)}]}
+            else:
+                member = None
+                it = {"kind": "alias", "attrs": attrs, "ident": name, "generics": [], "ty": t_path(["String", "u32", "bool"][j])}
+            copies.append(it)
+            want.append((rn or name, member))
+        # the copies live in sibling modules of one file, or in different files of the same crate
+        other = {"kind": "struct", "attrs": list(ts), "ident": "Unrelated%d" % idx, "generics": [], "fields": ("named", [field([], "z", t_path("u8"))])}
+        if rng.random() < 0.5:
+            files = [{"attrs": [], "items": [{"kind": "mod", "attrs": [], "ident": "v%d" % j, "items": [c]} for j, c in enumerate(copies)] + [other]}]
+        else:
+            files = [{"attrs": [], "items": [c] + ([other] if j == 0 else [])} for j, c in enumerate(copies)]
+            rng.shuffle(files)
+        g = Gen(rng)
+        cfg = {"package": "proto" if lang == "go" else "com.example", "type_mappings": {}, "version_header": False}
+        jobs = [{"crate": "", "file_name": "out", "path": "src/f%d.rs" % j, "file": f} for j, f in enumerate(files)]
+        mreq, rreq, texts = l2.requests(lang, cfg, jobs, g)
+        names = set().union(*[l2.names_of(f) for f in files])
+        ma = l2.norm(model([mreq], names=names)[0])
+        ra = l2.norm(runner([rreq])[0])
+        check.saw(("same-ident", lang, kind, "\n".join(texts)), nontrivial=True)
+        check.count("same-ident-%s" % kind)
+        if "ok" in ra:
+            out = ra["ok"].get("", "")
+            distinct = len({w for w, _ in want}) == len(want)
+            for w, member in want:
+                n_defs = len(re.findall(r"(?m)^(?:export (?:interface|type|enum)|(?:data |sealed |enum |value )?class|typealias|object|public (?:struct|enum|indirect enum|typealias)"
+                                        r"|case class|sealed trait|type|class) %s\b" % re.escape(w), out)) + \
+                         len(re.findall(r"(?m)^%s = " % re.escape(w), out))
+                need = 1 if distinct else sum(1 for x, _ in want if x == w)
+                mem_ok = member is None or re.search(r"(?i)\b%s\b" % re.escape(member.replace("_", "")), out.replace("_", ""))
+                if n_defs < need or not mem_ok:
+                    check.violation("%s: %d annotated %ss share the Rust identifier `%s` (written as %s); the output defines `%s` %d time(s)%s"
+                                    % (lang, k, kind, name, [x for x, _ in want], w, n_defs, "" if mem_ok else " and lacks its member `%s`" % member),
+                                    case={"lang": lang, "files": texts}, impl={"output": out}, model=ma, failing_input=True)
+                    return
+        if ma != ra:
+            d = l2.text_diff(ma["ok"].get("", ""), ra["ok"].get("", "")) if "ok" in ma and "ok" in ra else "%s vs %s" % (str(ma)[:200], str(ra)[:200])
+            check.violation("%s: items sharing a Rust identifier: generate_types differs from the model: %s" % (lang, d),
+                            case={"lang": lang, "files": texts}, impl=ra, model=ma, failing_input=False,
+                            broken="correspondence L2 generate (theorems TsV.C03.Capstone run_guarantees_*)")
+            return
 
 
 def find_item(items, name):
